@@ -1,9 +1,10 @@
 """Translator for the method dispatch sites of the emissions code (C11): `emissions/trajectory.py`, `emissions/lto.py` (+ the option
 enums of `config/emissions.py`) -> `lean/AeicModel/Generated/Refusals.lean` (structure: `AeicModel/Refusals.lean`).
 
-AST only. A *dispatch site* is a function that selects behaviour by a method option `config.emissions.<opt>_method`: a `match` on it,
-or an `if / elif` chain comparing it with members of its enum, that ends in a refusal (`case _:` / `else:` whose body raises). For
-every site the translator records
+AST only. A *dispatch site* is a function that compares a method option `config.emissions.<opt>_method` (directly or through a local
+name bound to it) with members of its enum — in a `match`, an `if / elif` chain, an early `return` guard, a membership test — and
+contains a `raise` whose expression mentions a method option (in its message, or in the arguments of a helper that builds the
+error). For every site the translator records
 
     file, function, option      the option the function dispatches on
     handled                     the VALUES (`Enum.MEMBER` resolved through the enum definition) the function mentions in `case`
@@ -69,60 +70,73 @@ def translate() -> tuple[str, list]:
     for rel in FILES:
         tree = ast.parse((REPO / 'src' / 'AEIC' / rel).read_text())
         for fn in [n for n in ast.walk(tree) if isinstance(n, ast.FunctionDef)]:
-            # refusing statements: a Raise in `case _` of a match on a method option, or in the final else of an if-chain on one
-            refusals = []
+            # local names bound to a method option (`method = config.emissions.nox_method`)
+            alias = {}
             for st in ast.walk(fn):
-                if isinstance(st, ast.Match):
-                    opt = _opt_of(st.subject)
-                    if opt is None or not opt.endswith('_method'):
-                        continue
-                    for c in st.cases:
-                        if isinstance(c.pattern, ast.MatchAs) and c.pattern.pattern is None:
-                            refusals.append((opt, c.body, st))
-                elif isinstance(st, ast.If):
-                    # the head of an if / elif chain on a method option
-                    opts = {_opt_of(x.left) for x in ast.walk(st.test) if isinstance(x, ast.Compare)} - {None}
-                    opts = {o for o in opts if o.endswith('_method')}
-                    if len(opts) != 1:
-                        continue
-                    node = st
-                    while len(node.orelse) == 1 and isinstance(node.orelse[0], ast.If):
-                        node = node.orelse[0]
-                    if node.orelse and any(isinstance(x, ast.Raise) or (isinstance(x, ast.Expr) and isinstance(x.value, ast.Call)) for x in node.orelse):
-                        if any(isinstance(x, ast.Raise) for b in node.orelse for x in ast.walk(b)) or _calls_raiser(node.orelse, tree):
-                            refusals.append((next(iter(opts)), node.orelse, st))
-            seen = set()
-            for opt, body, _node in refusals:
-                if (fn.name, opt) in seen:
-                    continue
-                seen.add((fn.name, opt))
-                handled = []
-                for x in ast.walk(fn):
-                    vals = []
-                    if isinstance(x, ast.Match) and _opt_of(x.subject) == opt:
-                        for c in x.cases:
-                            pats = c.pattern.patterns if isinstance(c.pattern, ast.MatchOr) else [c.pattern]
-                            vals += [member_value(p.value) for p in pats if isinstance(p, ast.MatchValue)]
-                    elif isinstance(x, ast.Compare) and _opt_of(x.left) == opt:
-                        for comp in x.comparators:
-                            elts = comp.elts if isinstance(comp, (ast.Tuple, ast.List, ast.Set)) else [comp]
-                            vals += [member_value(e) for e in elts]
-                    for v in vals:
-                        if v is not None and v not in handled:
-                            handled.append(v)
-                named, exc = [], ''
-                for b in body:
-                    for x in ast.walk(b):
-                        o = _opt_of(x) if isinstance(x, ast.Attribute) else None
-                        if o is not None and o not in named and not any(o != y and y.startswith(o) for y in named):
+                if isinstance(st, ast.Assign) and len(st.targets) == 1 and isinstance(st.targets[0], ast.Name):
+                    o = _opt_of(st.value)
+                    if o is not None:
+                        alias[st.targets[0].id] = o
+
+            def opt_of(e):
+                o = _opt_of(e)
+                if o is not None:
+                    return o
+                if isinstance(e, ast.Attribute) and e.attr == 'value':
+                    e = e.value
+                if isinstance(e, ast.Name) and e.id in alias:
+                    return alias[e.id]
+                return None
+
+            compared = []
+            for x in ast.walk(fn):
+                o = None
+                if isinstance(x, ast.Match):
+                    o = opt_of(x.subject)
+                elif isinstance(x, ast.Compare):
+                    o = opt_of(x.left)
+                if o is not None and o.endswith('_method') and o not in compared:
+                    compared.append(o)
+            if not compared:
+                continue
+            # refusing statements: every `raise` of the function whose expression mentions a method option (directly, through a
+            # local bound to it, or in the arguments of a helper that builds the error)
+            raises = []
+            for x in ast.walk(fn):
+                if isinstance(x, ast.Raise) and x.exc is not None:
+                    named = []
+                    for y in ast.walk(x.exc):
+                        o = opt_of(y) if isinstance(y, (ast.Attribute, ast.Name)) else None
+                        if o is not None and o.endswith('_method') and o not in named:
                             named.append(o)
-                        if isinstance(x, ast.Raise) and x.exc is not None:
-                            exc = ast.unparse(x.exc.func) if isinstance(x.exc, ast.Call) else ast.unparse(x.exc)
-                # `config.emissions.pmvol_method.value` is seen as both `…pmvol_method.value` and `…pmvol_method`: keep option names
-                named = [n for n in dict.fromkeys(named) if n.endswith('_method') or not n.endswith('value')]
-                if not named and not exc:
-                    raise DispatchTranslationError(f'{rel}:{fn.name}: the refusal of `{opt}` neither raises nor names an option')
-                sites.append({'file': rel, 'func': fn.name, 'option': opt, 'handled': handled, 'named': named, 'exc': exc})
+                    if named:
+                        exc = ast.unparse(x.exc.func) if isinstance(x.exc, ast.Call) else ast.unparse(x.exc)
+                        raises.append((x, named, exc))
+            if not raises:
+                continue
+            if len(compared) != 1:
+                raise DispatchTranslationError(f'{rel}:{fn.name}: dispatches on several method options {compared} and refuses: outside the reading')
+            opt = compared[0]
+            handled = []
+            for x in ast.walk(fn):
+                vals = []
+                if isinstance(x, ast.Match) and opt_of(x.subject) == opt:
+                    for c in x.cases:
+                        pats = c.pattern.patterns if isinstance(c.pattern, ast.MatchOr) else [c.pattern]
+                        vals += [member_value(p_.value) for p_ in pats if isinstance(p_, ast.MatchValue)]
+                elif isinstance(x, ast.Compare) and opt_of(x.left) == opt:
+                    for comp in x.comparators:
+                        elts = comp.elts if isinstance(comp, (ast.Tuple, ast.List, ast.Set)) else [comp]
+                        vals += [member_value(e_) for e_ in elts]
+                for v in vals:
+                    if v is not None and v not in handled:
+                        handled.append(v)
+            named_all = []
+            for _x, named, _e in raises:
+                for n_ in named:
+                    if n_ not in named_all:
+                        named_all.append(n_)
+            sites.append({'file': rel, 'func': fn.name, 'option': opt, 'handled': handled, 'named': named_all, 'exc': raises[0][2]})
     if not sites:
         raise DispatchTranslationError('no dispatch site found in ' + ', '.join(FILES))
     items = []
